@@ -424,7 +424,7 @@ impl Property for Scripts {
     fn budget(&self, tier: Tier) -> Budget {
         Budget {
             cases: tier.pick(12_000, 600_000),
-            tape_len: 900,
+            tape_len: 4500,
         }
     }
     fn decode(&self, t: &mut Tape<'_>) -> ScriptCase {
